@@ -14,6 +14,17 @@ Theorem c12_every_blocking_select_is_woken_by_close : uncovered_selects = [].
 Proof. vm_compute. reflexivity. Qed.
 Print Assumptions c12_every_blocking_select_is_woken_by_close.
 
+(* ... and no goroutine or caller blocks on a channel operation outside a select (which Close could not
+   wake), except the listed ones that cannot block forever. *)
+Theorem c12_no_unwakeable_channel_operation : unexpected_bare_ops = [] /\ force_tick_callers = [].
+Proof. vm_compute. split; reflexivity. Qed.
+Print Assumptions c12_no_unwakeable_channel_operation.
+
+Example c12_bare_detector_detects :
+  existsb (bare_eqb ("GoBackNConn.receivePacketsForever", "g.recvDataChan<-")) allowed_bare_ops = false /\
+  Nat.leb 1 (List.length bare_chanop_table) = true.
+Proof. vm_compute. split; reflexivity. Qed.
+
 (* the statement is not vacuous: the table is non-trivial and contains blocking selects *)
 Example c12_table_nontrivial :
   Nat.leb 20 (List.length select_table) = true /\
